@@ -418,6 +418,12 @@ StructAlphabet ==      \* C16: .repeat bodies (own '.', impure operators, hoiste
 StructIncFiles == << [name |-> "i1", body |-> << [k |-> "once"], LabX("x"), W(<< Sym("x"), Dot >>) >>],
                      [name |-> "i2", body |-> << W(<< Dot >>), [k |-> "end"], W(<< Sym("undefined") >>) >>] >>
 
+ListAlphabet ==        \* C19: ordinary symbols of any value (negative, > 16 bit, equal values), labels, exports, includes
+  { Lab("a"), Lab("b"), LabX("c"), Lab("1"), Const("n", Num(-5)), Const("big", Num(70000)), Const("z", Num(0)), ConstX("m", Bin("-", B, A)),
+    Const("a", Num(3)), Const("b", Num(512)), I0("nop"), W(<<A, B>>), Blkb(Num(3)), By(<<Num(1)>>), Inc(1), Inc(2), [k |-> "externall"] }
+ListIncFiles == << [name |-> "i1", body |-> << Lab("x"), I0("nop"), Lab("a"), Const("n", Num(9)) >>],
+                   [name |-> "i2", body |-> << Const("q", Num(-70000)), LabX("y"), By(<<Num(2)>>) >>] >>
+
 LayoutIncFiles == << [name |-> "i1", body |-> << Lab("x"), W(<< Sym("x"), Dot >>), By(<< Num(7) >>) >>] >>
 
 (* ------------------------------------------------------------------ TLC writes the program *)
@@ -509,7 +515,22 @@ CatOK(fs) == /\ Len(fs) >= 2
 LinkIsConcatenation(r) ==
     ("concat" \in Extra /\ r.ok /\ CatOK(files)) => SameMeaning(r, Eval(<< Concat(files) >>))
 
-Verdicts(r) == [aa |-> AddressAgreement(r), ash |-> AnnouncedSizeHonest(r), rl |-> RelocationLaw(r), lb |-> LinkBaseWellDefined(r),
+(* C19: the listing shows, under each source file's name, every ordinary symbol of that file with its final value, ordered by
+   value and then by name *)
+NameRank(n) == CASE n = "a" -> 1 [] n = "b" -> 2 [] n = "big" -> 3 [] n = "c" -> 4 [] n = "m" -> 5 [] n = "n" -> 6 [] n = "q" -> 7
+                 [] n = "x" -> 8 [] n = "y" -> 9 [] n = "z" -> 10 [] OTHER -> 11
+Before(p, q) == p.value < q.value \/ (p.value = q.value /\ NameRank(p.name) <= NameRank(q.name))
+RECURSIVE SetAsSeq(_)
+SetAsSeq(ss) == IF ss = {} THEN <<>> ELSE LET x == CHOOSE y \in ss : TRUE IN <<x>> \o SetAsSeq(ss \ {x})
+ListingOf(run) ==       \* the symbols are kept per definition (inst distinguishes two inclusions of one file)
+    LET fnames == { y.file : y \in run.syms } IN
+    { [file |-> f, lines |-> LET srt == SortSeq(SetAsSeq({ y \in run.syms : y.file = f }), Before) IN
+                             [q \in DOMAIN srt |-> [name |-> srt[q].name, value |-> srt[q].value]]] : f \in fnames }
+ListingSorted(r) ==
+    r.ok => \A b \in r.bases : \A sec \in ListingOf(r.runs[b]) :
+               \A q \in 1..(Len(sec.lines) - 1) : sec.lines[q].value <= sec.lines[q + 1].value
+
+Verdicts(r) == [ls |-> ListingSorted(r), aa |-> AddressAgreement(r), ash |-> AnnouncedSizeHonest(r), rl |-> RelocationLaw(r), lb |-> LinkBaseWellDefined(r),
                 mv |-> MoveInvariant(r), lc |-> LinkIsConcatenation(r)]
 
 (* ------------------------------------------------------------------ export for replay + invariant *)
@@ -518,6 +539,6 @@ Inv == LET r == Eval(files)
        /\ PrintT(ToJson([files |-> files, ok |-> r.ok, cyc |-> r.cyc, skip |-> r.skip,
                          own |-> r.own.st, insts |-> r.insts, chk |-> v, catok |-> (r.ok /\ CatOK(files)),
                          runs |-> { [base |-> b, image |-> r.runs[b].image, ok |-> r.runs[b].ok,
-                                     syms |-> r.runs[b].syms] : b \in r.bases }]))
-       /\ v.aa /\ v.ash /\ v.rl /\ v.lb /\ v.mv /\ v.lc
+                                     syms |-> r.runs[b].syms, lst |-> ListingOf(r.runs[b])] : b \in r.bases }]))
+       /\ v.aa /\ v.ash /\ v.rl /\ v.lb /\ v.mv /\ v.lc /\ v.ls
 =============================================================================
